@@ -25,7 +25,7 @@ import (
 
 func init() { suites["config"] = suiteConfig }
 
-var trickyNames = []string{"yes", "null", "123", "a: b", "日本", "~", "true", "0x1f", "-", "#x", "[a]", "{b}", "'q'", "\"dq\"", " lead", "trail ", "a\tb", "no", "1e3", "off"}
+var trickyNames = []string{"yes", "null", "123", "a: b", "日本", "~", "true", "0x1f", "-", "#x", "[a]", "{b}", "'q'", "\"dq\"", " lead", "trail ", "a\tb", "no", "1e3", "off", "$backend", "$HOME", "a$b"}
 
 func cfgName(r *rng, prefix string, i int) string {
 	if r.chance(30) {
@@ -105,7 +105,14 @@ func suiteConfig(r *rng, n int) {
 			names = append(names, cfgName(cr, "c", j))
 		}
 		for _, nme := range uniq(names) {
-			c.Caches = append(c.Caches, config.CacheConfig{Name: nme, Size: 10 + cr.intn(100), HitForPass: cr.pick([]string{"5m", "300s", "1h"})})
+			cc := config.CacheConfig{Name: nme, Size: 10 + cr.intn(100), HitForPass: cr.pick([]string{"5m", "300s", "1h"})}
+			if cr.chance(20) {
+				// a well-formed store url that cannot be opened when the configuration is applied (a path below a
+				// character device): the cache then works from memory only
+				cc.Store = "badger:///dev/null/verif-" + itoa(int64(cr.intn(3)))
+				stat("cache-with-unopenable-store")
+			}
+			c.Caches = append(c.Caches, cc)
 		}
 		names = nil
 		for j := 0; j < nn(3); j++ {
@@ -162,7 +169,12 @@ func suiteConfig(r *rng, n int) {
 		structOK := true
 		si := cr.intn(len(c.Servers))
 		li := cr.intn(len(c.Locations))
-		switch cr.intn(22) {
+		switch cr.intn(24) {
+		case 18:
+			// the policy names are case sensitive (the upstream library switches on the exact string and falls back to
+			// round robin for anything else)
+			defect, structOK = "bad-policy-case", false
+			c.Upstreams[0].Policy = cr.pick([]string{"First", "RANDOM", "roundrobin", "leastConn", "RoundRobin"})
 		case 0:
 			defect = "dangling-upstream"
 			c.Locations[li].Upstream = "ghost"
